@@ -57,7 +57,7 @@ func cmdRun(a []string) {
 		if os.Getenv("DUMP") != "" {
 			os.WriteFile("/tmp/q_"+o.ID+".smt2", []byte(smt), 0644)
 		}
-		r := sym.RunPortfolio(smt, 60*time.Second, []string{"z3", "cvc5"})
+		r := sym.RunPortfolio(smt, 60*time.Second, []string{"z3", "cvc5", "cvc5n"})
 		fmt.Printf("  obligation %s @%s: %s (%s %.2fs) %v\n", o.ID, o.Where, r.Status, r.Solver, r.Secs, r.All)
 		if r.Status == "sat" {
 			for i, in := range e.Inputs {
